@@ -1,4 +1,5 @@
 (* C20 entry points of the extracted model (nodes are natural numbers). *)
+From Coq Require Extraction ExtrOcamlBasic ExtrOcamlString.
 From Coq Require Import List Arith.
 Require Import TT.Model.Base TT.Model.Topo TT.Model.Kahn TT.Spec.P20.
 
@@ -8,3 +9,8 @@ Definition c20_topo_ok (g : Topo.graph nat) (req out : list nat) : bool := topo_
 Definition c20_kahn (order : list nat) (deps : list (nat * nat)) : Kahn.kres nat := kahn order deps.
 Definition c20_kahn_ok (ns : list nat) (deps : list (nat * nat)) (res : option (list nat)) : bool :=
   kahn_ok_b ns deps res.
+
+(* Extraction of this property's entry points: only the directives of
+   ExtrOcamlBasic and ExtrOcamlString are in force. Written to coq/tt_c20.ml. *)
+Extraction Language OCaml.
+Extraction "tt_c20.ml" c20_topo c20_topo_ok c20_kahn c20_kahn_ok.
